@@ -7,6 +7,7 @@ CONSTANTS
   MaxLen = 2
   Shapes = {0, 1, 2}
   Bases = {0, 65534}
+  MaskNs = {0}
   Mutant = "none"
 INVARIANTS TypeOK EvaluatorAccepts
 CHECK_DEADLOCK FALSE
